@@ -129,22 +129,30 @@ fn load_graph(
     // Map of model node index to graph node ID
     let mut node_id_from_index: HashMap<usize, NodeId> = HashMap::with_capacity(node_count);
 
-    let input_ids: Vec<NodeId> = serialized_graph
-        .inputs()
-        .map(|ids| ids.iter().map(NodeId::from_u32).collect())
-        .unwrap_or_default();
-
-    let output_ids: Vec<NodeId> = serialized_graph
-        .outputs()
-        .map(|ids| ids.iter().map(NodeId::from_u32).collect())
-        .unwrap_or_default();
+    // `NodeId::from_u32` panics if the value is out of range.
+    let node_ids = |ids: Option<flatbuffers::Vector<u32>>| -> Result<Vec<NodeId>, LoadError> {
+        let Some(ids) = ids else {
+            return Ok(Vec::new());
+        };
+        ids.iter()
+            .map(|id| {
+                if id <= i32::MAX as u32 {
+                    Ok(NodeId::from_u32(id))
+                } else {
+                    Err(load_error!(GraphError, None, "invalid node ID {}", id))
+                }
+            })
+            .collect()
+    };
+    let input_ids = node_ids(serialized_graph.inputs())?;
+    let output_ids = node_ids(serialized_graph.outputs())?;
 
     let mut graph = Graph::with_capacity(node_count);
     graph.set_input_ids(&input_ids);
     graph.set_output_ids(&output_ids);
 
-    if let Some(captures) = serialized_graph.captures() {
-        let captures: Vec<NodeId> = captures.iter().map(NodeId::from_u32).collect();
+    if serialized_graph.captures().is_some() {
+        let captures = node_ids(serialized_graph.captures())?;
         graph.set_captures(&captures);
     }
 
